@@ -73,7 +73,8 @@ def sym_dirty(ctx, cfg):
     # results equal the function of the inputs alone (the C03 oracle does not know about the leftovers)
     props = c03.output_props(s, prefix, True, True, True)
     made = set(vfs.listing()) - before
-    left = [p for p in made if "scores_metadata" in p or os.path.basename(p) in ("psms.pin", "peptides.pin")]
+    from checks.c15 import _is_result_file
+    left = [p for p in made if p.startswith("/vfs/out/") and not _is_result_file(p)]  # anything new that is not a result file
     props.append(("no_intermediate_file_of_this_run_remains: %s" % sorted(left), z3.BoolVal(not left)))
     own = ["/vfs/out/%sscores_metadata_%d.pin" % (pre, i) for i in range((n + C.CONFIDENCE_CHUNK_SIZE - 1) // C.CONFIDENCE_CHUNK_SIZE)]
     props.append(("own_temporary_files_removed", z3.BoolVal(not any(vfs.get(p) is not None for p in own))))
@@ -117,7 +118,8 @@ def sym_dirty2(ctx, cfg):
     for s, pre in zip(syms, prefixes):
         props += [("%s_%s" % (pre, n_), p_) for n_, p_ in c03.output_props(s, pre, True, True, True)]
     made = set(vfs.listing()) - before
-    left = [p for p in made if "scores_metadata" in p or os.path.basename(p) in ("psms.pin", "peptides.pin")]
+    from checks.c15 import _is_result_file
+    left = [p for p in made if p.startswith("/vfs/out/") and not _is_result_file(p)]  # anything new that is not a result file
     props.append(("no_intermediate_file_of_this_run_remains: %s" % sorted(left), z3.BoolVal(not left)))
     return PathOutcome(props, inputs, None)
 
@@ -305,6 +307,11 @@ def harnesses(tier):
         add("dirty[2 collections with prefixes,n=2,stale result files of either prefix]", dict(n=2), sym_dirty2, "dirty2", 0.01)
         add("produced[first n=3 chunk 1, crash<=16, then n=2]", dict(n_first=3, n=2, first_chunk=1, max_crash=16), sym_produced, "produced", 0.02)
         add("produced[first n=2 chunk 2, crash<=12, then n=3]", dict(n_first=2, n=3, first_chunk=2, max_crash=12), sym_produced, "produced", 0.02)
+    # a run WITH a protein level: no intermediate file (level files include the protein level's) may remain
+    from checks import c15
+    for cfg in ([dict(n=2, pairs=1, notation_offset=1)] if tier == "quick" else [dict(n=3, pairs=1, notation_offset=1), dict(n=2, pairs=2, notation_offset=0)]):
+        hs.append(Harness("confidence_with_proteins[n=%d,pairs=%d]" % (cfg["n"], cfg["pairs"]), cfg, c15.sym_confidence_proteins, real="conf_proteins", functions=funcs,
+                          bounds=cfg, stubs=stubs + ["as C15 confidence_proteins"], assumptions=["a clean destination directory; everything created there that is not a targets.*/decoys.* result file counts as an intermediate"], sample_rate=0.05))
     for nf, nr in ((1, 1), (1, 2)) if tier == "quick" else ((1, 2), (2, 2), (2, 3)):
         hs.append(Harness("verify_block[features=%d,rows=%d]" % (nf, nr), dict(nf=nf, nr=nr), sym_verify, real="verify", functions=[M.main, P2.is_valid_tsv, P2.pin_to_valid_tsv],
                           bounds=dict(features=nf, rows=nr), stubs=["open/shutil.move -> VFS text files", "Config -> verify_pin=True, one PIN file; main() is stopped at read_pin"],
@@ -389,7 +396,8 @@ def real_dirty(cfg, inp):
         if v:
             return dict(violation="with leftovers %s: %s" % (sorted(before), v))
         made = set(os.listdir(out)) - before
-        left = [f for f in made if "scores_metadata" in f or f in ("psms.pin", "peptides.pin")]
+        from checks.c15 import _is_result_file
+        left = sorted(f for f in made if not _is_result_file(f))  # anything new that is not a result file
         if left:
             return dict(violation="intermediate files of this run remain: %s" % left)
     return dict(outputs=None, violation=None)
@@ -488,4 +496,9 @@ def real_dirty2(cfg, inp):
     return dict(outputs=None, violation=None)
 
 
-REAL = {"dirty2": real_dirty2, "dirty": real_dirty, "produced": real_produced, "verify": real_verify}
+def _c15_real(cfg, inp):
+    from checks import c15
+    return c15.real_conf_proteins(cfg, inp)
+
+
+REAL = {"dirty2": real_dirty2, "dirty": real_dirty, "produced": real_produced, "verify": real_verify, "conf_proteins": _c15_real}
